@@ -3,7 +3,7 @@ R22 closure of the value class, R23 comparison derivation, R24 guard-0 sibling e
 R25 printing, R50 value objects are never mutated after construction."""
 import ast
 
-from ..model import AnalysisError, need, call_name, const_str, unparse
+from ..model import AnalysisError, need, call_name, const_str, unparse, alpha_body, alpha_src
 from ..cfg import cfg_of
 from .. import valuesem as vs
 from ..valuesem import add, mul, neg, dim, show, roundings, DimError
@@ -329,9 +329,10 @@ def r22_closure(ctx):
     # the wrapper converts the Fraction result back to Rational
     wf = repo.funcs.get('droop.values.rational._wrap_method')
     need(wf is not None, 'rational._wrap_method missing')
-    inner = list(wf.children.values())
-    okw = len(inner) == 1 and any(isinstance(r, ast.Return) and unparse(r.value) == 'Rational(fraction_method(*args))'
-                                  for r in inner[0].own_nodes())
+    ref = ('def _wrap_method(method):\n fraction_method = getattr(Fraction, method)\n def x(*args):\n  return Rational(fraction_method(*args))\n'
+           '%s setattr(Rational, method, x)')
+    got = alpha_body(wf.node)
+    okw = got in (alpha_src(ref % ' x.__name__ = method\n'), alpha_src(ref % ''))
     ctx.check(okw, R, wf.node, wf, 'wrapped Fraction operators return Rational', 'return Rational(fraction_method(*args))',
               '_wrap_method no longer converts results to Rational')
     needed = {}
@@ -660,7 +661,8 @@ def r25_printing(ctx):
                       and isinstance(r.value.left, ast.Name) and signs and r.value.left.id == signs[0].targets[0].id]
             plain = [r for r in rets if r not in signed]
             # plain returns are allowed only for the integer fast path `return str(v)`
-            okp = all(unparse(r.value) in ('str(v)',) for r in plain)
+            okp = all(isinstance(r.value, ast.Call) and unparse(r.value.func) == 'str' and len(r.value.args) == 1 and isinstance(r.value.args[0], ast.Name)
+                      and r.value.args[0].id in f.assigns() for r in plain)
             ctx.check(bool(signs) and bool(signed) and okp, R, f.node, f, 'a negative value is printed with a minus sign in front of its magnitude',
                       "sign = '-' if v < 0 else ''; return sign + <formatted magnitude>", 'the sign is not prefixed to the formatted magnitude')
     # (b) half-up: the constant added before the floor division is defined by initialize() as half the divisor
@@ -698,9 +700,18 @@ def r25_printing(ctx):
                   % ([unparse(x) for x in rdef], [unparse(x) for x in ddef]))
         # the display precision is clamped only when it is out of range
         if qn == FIXED:
-            clamps = [n for n in init.own_nodes() if isinstance(n, ast.If) and any(isinstance(x, ast.Assign) and unparse(x.targets[0]) == 'display' for x in n.body)]
+            # the local that ends up in cls.display
+            dsrc = [x.value for x in init.own_nodes() if isinstance(x, ast.Assign) and unparse(x.targets[0]) == 'cls.display']
+            dname = None
+            if len(dsrc) == 1:
+                v_ = dsrc[0]
+                if isinstance(v_, ast.Call) and unparse(v_.func) == 'int' and len(v_.args) == 1:
+                    v_ = v_.args[0]
+                dname = v_.id if isinstance(v_, ast.Name) else None
+            need(dname is not None, 'Fixed.initialize: cls.display is not assigned from a local')
+            clamps = [n for n in init.own_nodes() if isinstance(n, ast.If) and any(isinstance(x, ast.Assign) and unparse(x.targets[0]) == dname for x in n.body)]
             okc = len(clamps) == 1 and isinstance(clamps[0].test, ast.BoolOp) and isinstance(clamps[0].test.op, ast.Or) and \
-                sorted(unparse(v) for v in clamps[0].test.values) == ['display < 0', 'display > cls.precision']
+                sorted(unparse(v) for v in clamps[0].test.values) == ['%s < 0' % dname, '%s > cls.precision' % dname]
             ctx.check(okc, R, clamps[0] if clamps else init.node, init, 'Fixed honours the configured display digits whenever 0 <= display <= precision',
                       'display is replaced by the precision only under `display < 0 or display > cls.precision`',
                       'the display clamp is `%s`' % (unparse(clamps[0].test) if clamps else None), nontrivial=False)
